@@ -45,6 +45,9 @@ def midrow(italic, underline=False, color=0):
     return word(0x11, (0x2e if italic else 0x20 + 2 * color) + (1 if underline else 0))
 
 
+# set by a check that wants rows whose preamble and mid-row codes are the UNDERLINED variants (same cells, same italics)
+UNDERLINE_RNG = None
+
 CMD = {"RCL": word(0x14, 0x20), "BS": word(0x14, 0x21), "DER": word(0x14, 0x24), "RU2": word(0x14, 0x25), "RU3": word(0x14, 0x26),
        "RU4": word(0x14, 0x27), "RDC": word(0x14, 0x29), "EDM": word(0x14, 0x2c), "CR": word(0x14, 0x2d), "ENM": word(0x14, 0x2e), "EOC": word(0x14, 0x2f)}
 
@@ -161,7 +164,7 @@ def gen_row_items(rng, n, rich):
 def row_words(row, doubled):
     """PAC [TO] then the items; control codes doubled as units when `doubled`"""
     out = []
-    p = pac(row["row"], row["indent"], italic=row["italic_pac"])
+    p = pac(row["row"], row["indent"], italic=row["italic_pac"], underline=row.get("underline", False))
     unit = [p] + ([tab(row["tab"])] if row["tab"] else [])
     out += unit * (2 if doubled else 1)
     pending = []
@@ -187,7 +190,7 @@ def row_words(row, doubled):
             elif it[0] == "bs":
                 out += [CMD["BS"]] * (2 if doubled else 1)
             elif it[0] == "mid":
-                out += [midrow(it[1])] * (2 if doubled else 1)
+                out += [midrow(it[1], underline=row.get("underline", False))] * (2 if doubled else 1)
             elif it[0] == "n":
                 out.append("8080")
     flush()
@@ -281,7 +284,8 @@ def gen_popon(rng, rich=True, ncaps=None, max_len=30):
             if r > 15:
                 break
             rows.append({"row": r, "indent": rng.choice([0, 0, 4, 8, 12, 28]) if rng.random() < 0.7 else 0,
-                         "tab": rng.choice([0, 0, 0, 1, 2, 3]), "italic_pac": False, "items": []})
+                         "tab": rng.choice([0, 0, 0, 1, 2, 3]), "italic_pac": False, "items": [],
+                         "underline": UNDERLINE_RNG is not None and UNDERLINE_RNG.random() < 0.15})
             if rich and rng.random() < 0.15:
                 rows[-1]["italic_pac"] = True; rows[-1]["indent"] = 0
             rows[-1]["items"] = gen_row_items(rng, rng.randint(1, max_len), rich)
